@@ -105,6 +105,11 @@ def build():
             self.log('Inh', (), None)
             return 'inh'
 
+        def dbus_Old(self, s, dbusCaller=None):
+            # the base class implements this member without asking for the caller; this override asks for it
+            self.log('Old', (s,), None)
+            return 'old:' + s if isinstance(dbusCaller, str) and dbusCaller.startswith(':') else 'old, and no caller given'
+
         def dbus_Val(self, s):
             self.log('Val', (s,), None)
             return 'v:' + s
@@ -189,6 +194,7 @@ def build():
         def both_two(self):
             self.log('Both2', (), None)
             return 'two'
+    Sub.BaseClass = Base
     return Sub
 
 
@@ -256,6 +262,12 @@ class ObjectsDriver:
                 return 'pre'
         self.h.exportObject(Pre('/obj'))
         pc = message.MethodCallMessage('/obj', 'Val', interface='org.v.Pre', destination=':1.2', signature='s', body=['x'])
+        ppm = message.parseMessage(pc.rawMessage, [])
+        ppm.sender = ':1.3'
+        self.h.handleMethodCallMessage(ppm)
+        # ... and then an object of the BASE class, which also served a call (the member the subclass overrides)
+        self.h.exportObject(type(self.o).BaseClass('/obj', lambda *a, **k: None))
+        pc = message.MethodCallMessage('/obj', 'Old', interface=I0, destination=':1.2', signature='s', body=['x'])
         ppm = message.parseMessage(pc.rawMessage, [])
         ppm.sender = ':1.3'
         self.h.handleMethodCallMessage(ppm)
